@@ -141,6 +141,14 @@ CLAIMS['C25'] = dict(
          'Suppressions::nofail (one known finding: reportUnmatchedSuppressions).',
     design='3/C25', note='The "if and only if" on a concrete run (which findings a run produces) is not decided; only that no path around the accounting exists.')
 
+CLAIMS['C15'] = dict(
+    technique='static analysis: writer/reader agreement of the inter-process encodings (field coverage by who-reads/who-writes queries, slot-by-slot member matching through '
+              'constructor initialisers and getters, constant agreement), enum exhaustiveness of the pipe protocol, dominance of worker-finding forwards by hasToLog',
+    text='Decides that ErrorMessage::serialize/deserialize carry every data member a worker can set (members outside the encoding must be written only by the parent-side '
+         'StdLogger), that slot k and stack-frame part k are restored into the member they were taken from, that the three element counts agree, that every '
+         'PipeWriter::PipeSignal is written, accepted by handleRead\'s validation and handled, and that both executors forward a worker finding only under hasToLog(msg).',
+    design='3/C15', note='Equality of the reports under every interleaving and message contents that stress the length-prefixed framing are not decided.')
+
 NOT_APPLICABLE = {
     'C01': 'soundness of inferred values vs. concrete executions of arbitrary programs; needs an executing/symbolic oracle, no structural necessary condition in valueflow.cpp',
     'C02': 'same as C01, for container sizes',
